@@ -577,6 +577,9 @@ func (w *worldB) nodeLabel(n *node.Node) string {
 	if n == w.f {
 		return "F(never restarted)"
 	}
+	if w.crashes > 0 {
+		return fmt.Sprintf("O(restarts=%d, crash-restarts=%d)", w.restarts, w.crashes)
+	}
 	return fmt.Sprintf("O(restarts=%d)", w.restarts)
 }
 
@@ -584,7 +587,7 @@ func (w *worldB) nodeClass(n *node.Node) string {
 	if n == w.f {
 		return "node-never-restarted"
 	}
-	if w.restarts > 0 {
+	if w.restarts > 0 || w.crashes > 0 {
 		return "node-restarted"
 	}
 	return "twin-node-not-yet-restarted"
@@ -923,7 +926,7 @@ func (w *worldB) checkSnapshot(b *types.Block, parent obsB, post obsB, spec stri
 		count("snapshot_votes_differ_from_parent_list(post-state)", 1)
 	}
 	if bad != "" {
-		w.viol("snapshot/"+bad+"/block=["+txKinds(spec)+"]", line+fmt.Sprintf("; the first %d of the full sort at the parent are %s", deputyCount, fmtList(want)))
+		w.viol("snapshot/"+bad, line+fmt.Sprintf("; the first %d of the full sort at the parent are %s", deputyCount, fmtList(want)))
 		return false
 	}
 	// every node can load the new term from it
